@@ -60,7 +60,8 @@ def stack_monotone(res, src, args, word=2):
             hi = mid
         else:
             lo = mid
-    for stack in sorted(set(list(range(max(1, hi - 4), hi + 10)) + [hi + 16, hi + 50, 2 * hi + 100, 1000])):
+    top = ((1 << (8 * word - 1)) - 1) // word - 5          # the largest stack the compiler accepts at this word size
+    for stack in sorted(set(list(range(max(1, hi - 4), hi + 10)) + [hi + 16, hi + 50, 2 * hi + 100, 1000] + ([top, top - 1, top - 7] if word == 2 and top > hi else []))):
         o = run_at(stack)
         if o is None or o.klass == 'TIMEOUT':
             continue
@@ -150,8 +151,8 @@ def run_shard(spec):
             inp = os.path.join(d, f'in{si}.hid')
             with open(inp, 'w') as f:
                 f.write(src)
-            for m in (16, 24, 32, 64):
-                for sz in (0, 1, 2, 7, 500, 16000):
+            for m in (16, 24, 32, 40, 48, 64):
+                for sz in (0, 1, 2, 7, 500, 16000, 16378, 16379):
                     for unchecked in (False, True):
                         n += 1
                         if n % spec['parts'] != spec['part']:
@@ -259,7 +260,7 @@ def run_shard(spec):
                     progs.append((None, None, f.read()))
     # ---- (a) reproducibility
     for prog, args, src in progs:
-        for word, stack, unchecked in ((2, 500, False), (rng.choice([3, 4, 8]), rng.choice([64, 1000]), rng.random() < 0.5)):
+        for word, stack, unchecked in ((2, 500, False), (rng.choice([3, 4, 8, 5, 6]), rng.choice([64, 1000]), rng.random() < 0.5)):
             job = {'source': src, 'word': word, 'stack': stack, 'unchecked': unchecked}
             try:
                 d1 = digest(env.compile_src(src, word=word, stack=stack, unchecked=unchecked))
@@ -297,7 +298,7 @@ def run_shard(spec):
                 runner.fail(res, 'M-REPRO', f'output under PYTHONHASHSEED={hs} differs from the in-process compilation '
                                             f'({a[:16]} vs {b[:16]})', dict(job, hashseed=hs))
     # ---- (b)(c)(d) behaviour across options
-    for prog, args, src in progs:
+    for i, (prog, args, src) in enumerate(progs):
         if prog is None:
             if args is not None:
                 stack_monotone(res, src, args)
@@ -340,7 +341,7 @@ def run_shard(spec):
             fits = False
         if fits:
             base = None
-            for word in (2, 3, 4, 8):
+            for word in (2, 3, 4, 8, common.ODD_WORDS[i % 5], common.ODD_WORDS[(i + 2) % 5]):
                 run = diff.compile_and_run(src, args, word=word, stack=diff.GENEROUS_STACK, max_steps=MAX_STEPS, monitors=False)
                 if run.kind != 'ok' or run.outcome.klass == 'TIMEOUT':
                     break
